@@ -1234,11 +1234,28 @@ def _part_iii(task, rec):
         wrote = []
         for wname, wf in (('write_html', r.write_html), ('write_latex', r.write_latex), ('write_pickle', r.write_pickle),
                           ('write_f12', r.write_f12)):
+            entries = snapshot()
             try:
                 call(wname, wf)
                 wrote.append(wname)
             except _Unavailable:
-                pass
+                # the writer produced no report for this results object (outside the statement).  What it leaves in the
+                # directory is inside: a file that carries the name of a report of the model IS a generated report file
+                # and has to list the estimated parameters
+                left = {k: v for k, v in snapshot().items() if k not in entries}
+                lacking = sorted(k for k, v in left.items()
+                                 if v[0] != 'file' or any(n[:10] not in open(k, encoding='utf-8', errors='replace').read()
+                                                          for n in free))
+                one(f'{wname}:left-behind', not lacking, sorted(left))
+                if lacking:
+                    sizes = {k: os.path.getsize(k) for k in lacking if os.path.isfile(k)}
+                    rec.violation('C14|report-writer-raises-and-leaves-a-report-file-without-parameters|'
+                                  'results-object-without-derivatives',
+                                  f'{wname}() of the results of {how} (model {kind}, parameters {free}) raises and leaves '
+                                  f'the file(s) {sizes} (sizes in bytes) in the directory: a report file of the model that lists '
+                                  f'no estimated parameter (the printed form of the object then names it as its output file)',
+                                  case, expected='no file, or a report listing every estimated parameter',
+                                  observed=sizes)
         try:
             call('str', lambda: str(r))
             _check_printed(r, free, fixed, rec, case, keytail, casekey, state='after ' + '+'.join(wrote or ['nothing']))
@@ -2776,6 +2793,12 @@ def l_tasks(tier):
     for entry in L_COSTLY:
         for pattern in (('files',) if quick else ('files', 'kinds')):
             add(entry, MODEL_NAME, 'pickle', pattern, n, thin=quick and entry == 'validate')
+    # model names that read as file-name patterns: the saved results are found and recycled at every boundary length
+    add('pickle', f'{MODEL_NAME}[1]', 'html', 'files', nq)
+    add('est_p', f'{MODEL_NAME}*', 'pickle', 'files', nq, thin=True)
+    if not quick:
+        add('pickle', f'[{MODEL_NAME[0]}]{MODEL_NAME[1:]}?', 'html', 'holes', nq)
+        add('est_hp', f'{MODEL_NAME}[!x]', 'pickle', 'files', nq)
     for ext in ('html', 'pickle', 'tex', 'F12', 'dat'):
         main = ext in ('html', 'pickle')
         for pattern in L_PATTERNS:
@@ -2987,6 +3010,457 @@ def _part_p(task, rec):
             dead.add(tuple(hist[:i + 1]))
 
 
+# --------------------------------------------------------------------------- part (R): two models of related names
+# Two models A and B write into ONE directory; their names come from an alphabet of RELATED pairs: the name of A reads
+# as a file-name pattern that matches the name of B ([ ] * ? !), is a prefix of the name of B, or B's name is A's name
+# followed by '~...' (the separator of the numbered names).  Histories: every sequence (bounded length) of
+# X:w (write_pickle of X's results object), X:est (estimate() with HTML + pickle generation), thorough tier also
+# X:del (the user deletes X's most recent pickle), X in {A, B}.  After every step, for both models:
+#   - nothing that existed is touched, the reported names are new and are the new entries, the new pickle reads back;
+#   - files_of_type('pickle' | 'html') of X lists every file X wrote and no file the other model wrote;
+#   - estimate(recycle=True) and recycled_estimation() of X return the results X saved last; when X saved nothing, they
+#     estimate X's own model (they never hand out the results of the other model).
+# Out of the domain (counted): a file of the other model that carries a DOCUMENTED name of this model (name.ext or
+# name~NN.ext, e.g. the model 'm~00' next to the model 'm'): the file name alone cannot tell whose it is.
+R_OPS = ['A:w', 'B:w', 'A:est', 'B:est']
+R_OPS_DEL = ['A:del', 'B:del']
+R_OLD = 1.65e9
+R_GLOB_CHARS = '*?['
+R_MODELS = dict(A=('k2', 0), B=('k1', 1))       # different parameters: the results of A and of B cannot be confused
+
+
+def r_pairs(seed=None):
+    """(name of A, name of B, relation) for the seed's stem."""
+    sd = _SEED if seed is None else seed
+    s = MODEL_NAMES[sd % len(MODEL_NAMES)]
+    c = ['1', 'x', '7', 'b'][sd % 4]            # the character that tells the two names apart
+    d = ['2', 'y', '8', 'c'][sd % 4]
+    rng = {'1': '0-3', 'x': 'w-z', '7': '5-9', 'b': 'a-c'}[c]
+    pairs = [
+        (f'{s}[{c}]', f'{s}{c}', 'pattern:set'),            # 'm[1]' matches 'm1', not itself
+        (f'{s}{c}', f'{s}[{c}]', 'plain-next-to-pattern'),
+        (f'{s}[{rng}]', f'{s}{c}', 'pattern:range'),
+        (f'{s}[!{d}]', f'{s}{c}', 'pattern:negated-set'),
+        (f'{s}*', f'{s}{c}{d}', 'pattern:star'),              # 'm*' matches every name that starts with m
+        (f'{s}?', f'{s}{c}', 'pattern:question-mark'),
+        (f'[{s[0]}]{s[1:]}', s, 'pattern:leading-set'),
+        (f'{s}[{c}', f'{s}{c}', 'pattern:unclosed-bracket'),  # no pattern at all: taken literally by every reading
+        (f'{s}]{c}', f'{s}{c}', 'pattern:closing-bracket-only'),
+        (f'{s}[[]', f'{s}[', 'pattern:set-of-bracket'),
+        ('*', s, 'pattern:star-alone'),
+        (f'{s}[{c}]*', f'{s}{c}.{d}', 'pattern:set+star'),
+        (s, f'{s}{c}', 'prefix'),
+        (s, f'{s}.{c}', 'prefix:dot'),
+        (s, f'{s}_{c}', 'prefix:underscore'),
+        (s, f'{s} {c}', 'prefix:blank'),
+        (s, f'{s}.pickle', 'prefix:extension-in-name'),
+        (s, f'{s}~{c if not c.isdigit() else "v" + c}', 'tilde:suffix-not-a-number'),
+        (s, f'{s}~', 'tilde:bare'),
+        (f'{s}~', f'{s}~~{c}', 'tilde:both'),
+        (f'{s}~{d if not d.isdigit() else "w" + d}', f'{s}~{c if not c.isdigit() else "v" + c}', 'tilde:siblings'),
+        (s, f'{s}~00', 'tilde:first-numbered-name'),        # inherently ambiguous for A (counted), B is held to everything
+        (s, f'{s}~7', 'tilde:one-digit'),                   # 'xx is an integer': ambiguous as well
+    ]
+    return pairs
+
+
+# relations explored in the thorough tier only (each has a close relative in the quick tier)
+R_THOROUGH_ONLY = ('pattern:range', 'pattern:closing-bracket-only', 'pattern:unclosed-bracket', 'pattern:set+star',
+                   'prefix:underscore', 'prefix:blank', 'tilde:siblings', 'tilde:one-digit')
+
+
+def r_witness(x_name, y_name):
+    """Class of the (this model, other model) names for the finding key."""
+    if any(ch in x_name for ch in R_GLOB_CHARS):
+        return 'model-name-with-pattern-characters'
+    if y_name.startswith(x_name + '~'):
+        return 'other-model-name-is-this-name-plus-tilde-suffix'
+    if y_name.startswith(x_name):
+        return 'other-model-name-extends-this-name'
+    if '~' in x_name:
+        return 'model-name-with-tilde'
+    return 'plain-model-name'
+
+
+def r_documented_name_of(x_name, fn, ext):
+    """Is fn a name the documented rule gives to outputs of the model x_name (name.ext, name~xx.ext, xx an integer)?"""
+    return fn == f'{x_name}.{ext}' or re.fullmatch(re.escape(x_name) + r'~\d+\.' + re.escape(ext), fn) is not None
+
+
+class PairHistory:
+    """Two models of related names in one directory; a reference model records who wrote what, in which order."""
+
+    def __init__(self, names, models):
+        _setup()
+        self.names = dict(A=names[0], B=names[1])
+        self.dir = fresh_dir('R')
+        self.bio = models                      # {'A': BIOGEME, 'B': BIOGEME} (owned by the task, names set here)
+        self.free = {}
+        self.res = {}
+        for x, (kind, pool) in R_MODELS.items():
+            self.res[x], self.free[x], _ = pristine_results(kind, pool, 0)
+            self.res[x].data.modelName = self.names[x]
+            self.bio[x].modelName = self.names[x]
+        self.own = dict(A=[], B=[])            # reference: (file name, ext, notes, beta bits) in write order
+        self.clock = 0
+        self.snap = snapshot()
+        self.nout = 0
+        self.trash = []                        # deleted files (for undo)
+
+    def close(self):
+        leave_dir(self.dir)
+
+    # -- depth-first exploration: a step is undone on the harness side (the directory and the reference model are put
+    # back; the library keeps no state about the directory)
+    def mark(self):
+        return (dict(A=list(self.own['A']), B=list(self.own['B'])), self.clock, self.nout, self.snap, len(self.trash))
+
+    def undo(self, mark):
+        own, clock, nout, snap, ntrash = mark
+        while len(self.trash) > ntrash:
+            fn, data, times = self.trash.pop()
+            with open(fn, 'wb') as f:
+                f.write(data)
+            os.utime(fn, ns=times)
+        for fn in os.listdir('.'):
+            if fn not in snap:
+                os.remove(fn)
+        self.own, self.clock, self.nout, self.snap = own, clock, nout, snap
+
+    def _age(self, fn):
+        self.clock += 1
+        os.utime(fn, (R_OLD + self.clock, R_OLD + self.clock))
+
+    # -- one write step -----------------------------------------------------------
+    def step(self, op):
+        """None, 'skip' or (clause, witness, detail)."""
+        import biogeme.results as res
+        x, _, what = op.partition(':')
+        y = 'B' if x == 'A' else 'A'
+        name = self.names[x]
+        wit = r_witness(name, self.names[y])
+        before = self.snap
+        if what == 'del':
+            mine = [o for o in self.own[x] if o[1] == 'pickle']
+            if not mine:
+                return 'skip'
+            st = os.stat(mine[-1][0])
+            with open(mine[-1][0], 'rb') as f:
+                self.trash.append((mine[-1][0], f.read(), (st.st_atime_ns, st.st_mtime_ns)))
+            os.remove(mine[-1][0])
+            self.own[x].remove(mine[-1])
+            self.snap = snapshot()
+            return None
+        self.nout += 1
+        try:
+            if what == 'w':
+                r = self.res[x]
+                r.data.userNotes = f'{x}: written as output {self.nout}'
+                reported = [(r.write_pickle(), 'pickle')]
+                src = r
+            elif what == 'est':
+                b = self.bio[x]
+                b.generate_html = b.generate_pickle = True
+                b.user_notes = f'{x}: estimated as output {self.nout}'
+                try:
+                    src = estimate(b)
+                finally:
+                    b.generate_html = b.generate_pickle = False
+                reported = [(src.data.htmlFileName, 'html'), (src.data.pickleFileName, 'pickle')]
+            else:
+                raise ValueError(op)
+        except Exception as e:
+            if isinstance(e, ValueError) and str(e) == op:
+                raise
+            return (f'raises-{type(e).__name__}', f'op={what},{wit}',
+                    f'{op} raised {type(e).__name__}: {str(e).splitlines()[0][:80] if str(e) else ""}')
+        after = snapshot()
+        for k, v in before.items():
+            if after.get(k) != v:
+                return ('existing-entry-changed', f'op={what},{wit}', f'{k!r} was {v}, is {after.get(k)} after {op}')
+        for fn, ext in reported:
+            if fn in before:
+                return ('reported-name-existed', f'op={what},{wit}', f'{op} reported {fn!r}, which existed before as {before[fn]}')
+            if after.get(fn, ('', ''))[0] != 'file':
+                return ('reported-name-not-written', f'op={what},{wit}', f'{op} reported {fn!r}; directory {sorted(after)}')
+        created = sorted(k for k in after if k not in before and not (k.startswith('__') and k.endswith('.iter')))
+        if created != sorted(fn for fn, _ in reported):
+            return ('reported-names-differ-from-created', f'op={what},{wit}', f'{op} reported {reported}, created {created}')
+        for fn, ext in reported:
+            if ext == 'pickle':
+                try:
+                    back = res.bioResults(pickle_file=fn, identification_threshold=src.identification_threshold)
+                except Exception as e:
+                    return ('pickle-unreadable', f'op={what},{wit}', f'{fn}: {type(e).__name__}: {e}')
+                d = deep_diff(dict(vars(src.data)), dict(vars(back.data)), 'data')
+                if d:
+                    return ('pickle-differs', f'op={what},{wit}', f'{fn}: {d}')
+            self._age(fn)
+            self.own[x].append((fn, ext, src.data.userNotes, tuple(bits(v) for v in src.data.betaValues)))
+        self.snap = snapshot()
+        return None
+
+    # -- what both models see afterwards --------------------------------------------
+    def observe(self, rec=None):
+        """After a step: the saved results each model finds and recycles.  Returns (labels, failure or None)."""
+        labels = []
+        for x in ('A', 'B'):
+            y = 'B' if x == 'A' else 'A'
+            name, b = self.names[x], self.bio[x]
+            wit = r_witness(name, self.names[y])
+            claimable_newer = False
+            for ext in ('pickle', 'html'):
+                try:
+                    found = set(b.files_of_type(ext))
+                except Exception as e:
+                    return labels, (f'files_of_type-raises-{type(e).__name__}', wit, f'{name!r}.files_of_type({ext!r}): {e}')
+                mine = [o[0] for o in self.own[x] if o[1] == ext]
+                theirs = [o[0] for o in self.own[y] if o[1] == ext]
+                ambiguous = [fn for fn in theirs if r_documented_name_of(name, fn, ext)]
+                if ambiguous and rec is not None:
+                    rec.count('file_of_the_other_model_carries_a_documented_name_of_this_model_out_of_domain')
+                if ext == 'pickle' and ambiguous:
+                    claimable_newer = True
+                missing = sorted(set(mine) - found)
+                if missing:
+                    return labels, ('own-saved-results-not-found', wit,
+                                    f'the model {name!r} wrote {mine}; files_of_type({ext!r}) gives {sorted(found)} '
+                                    f'(directory: {sorted(self.snap)})')
+                taken = sorted(found & (set(theirs) - set(ambiguous)))
+                if taken:
+                    return labels, ('saved-results-of-another-model-taken-for-own', wit,
+                                    f'files_of_type({ext!r}) of the model {name!r} lists {taken}, written by the model '
+                                    f'{self.names[y]!r} (own files: {mine})')
+            if claimable_newer:
+                labels.append('ambiguous')
+                continue
+            mine = [o for o in self.own[x] if o[1] == 'pickle']
+            for entry in ('estimate(recycle=True)', 'recycled_estimation()'):
+                b.user_notes = f'{x}: fresh estimation'
+                before = self.snap
+                try:
+                    got = estimate(b, recycle=True) if entry.startswith('estimate') else b.recycled_estimation()
+                except Exception as e:
+                    return labels, (f'recycle-raises-{type(e).__name__}', wit,
+                                    f'{entry} of the model {name!r} raised {type(e).__name__}: {str(e)[:80]} '
+                                    f'(directory: {sorted(self.snap)})')
+                gv = tuple(bits(v) for v in got.data.betaValues)
+                notes = got.data.userNotes
+                other = [o for o in self.own[y] if o[1] == 'pickle' and (o[2], o[3]) == (notes, gv)]
+                if other or list(got.data.betaNames) != list(self.free[x]):
+                    return labels, ('saved-results-of-another-model-taken-for-own', wit,
+                                    f'{entry} of the model {name!r} (parameters {self.free[x]}) returned results with the '
+                                    f'parameters {list(got.data.betaNames)} noted {notes!r}: the file '
+                                    f'{[o[0] for o in other]} of the model {self.names[y]!r} (own pickles: {[o[0] for o in mine]})')
+                if mine:
+                    if (notes, gv) != (mine[-1][2], mine[-1][3]):
+                        if notes == f'{x}: fresh estimation':
+                            return labels, ('own-saved-results-not-found', wit,
+                                            f'{entry} of the model {name!r} estimated again although the model saved '
+                                            f'{[o[0] for o in mine]}')
+                        return labels, ('recycle-not-the-latest-results', f'pair,{wit}',
+                                        f'{entry} of the model {name!r} returned the results noted {notes!r} instead of '
+                                        f'the most recent {mine[-1][0]!r} ({mine[-1][2]!r})')
+                elif notes != f'{x}: fresh estimation':
+                    return labels, ('recycle-without-saved-results-returns-something-else', wit,
+                                    f'{entry} of the model {name!r}, which saved nothing, returned results noted {notes!r}')
+                if snapshot() != before:
+                    return labels, ('recycle-wrote-files', wit, f'{entry} of the model {name!r} changed the directory')
+            labels.append('own-latest' if mine else 'fresh-estimation')
+        return labels, None
+
+
+def r_models():
+    out = {}
+    for x, (kind, pool) in R_MODELS.items():
+        out[x], _, _ = make_model(kind, pool, 0, model_name=x)
+    return out
+
+
+def _r_violation(rec, names, rel, hist, bad):
+    clause, witness, detail = bad
+    rec.violation(f'C14|{clause}|{witness}',
+                  f'{clause} after the history {list(hist)} of the models A = {names[0]!r} and B = {names[1]!r} ({rel}) in one '
+                  f'directory: {detail}', dict(part='R', a=names[0], b=names[1], rel=rel, history=list(hist)), observed=detail)
+
+
+def run_pair_history(names, rel, hist, models=None, seen=None, rec=None):
+    """Executes hist; every prefix is a history of its own (observed once).  Returns (failing index, failure)."""
+    h = PairHistory(names, models or r_models())
+    try:
+        for i, op in enumerate(hist):
+            pre = tuple(hist[:i + 1])
+            bad = h.step(op)
+            if bad == 'skip':
+                if rec is not None and pre not in seen:
+                    seen.add(pre)
+                    rec.count('delete_without_an_own_pickle_skipped')
+                return i, 'skip'
+            labels = []
+            if not bad and (rec is None or pre not in seen):
+                labels, bad = h.observe(rec)
+            if rec is not None and pre not in seen:
+                seen.add(pre)
+                rec.case(('R', names[0], names[1], pre) if i > 0 else None, ('R', names, pre, labels, bad[0] if bad else None),
+                         outcome=('R', op.split(':')[1], tuple(labels), bad[0] if bad else 'ok'))
+                rec.count('pair_history_steps')
+                if bad:
+                    _r_violation(rec, names, rel, pre, bad)
+            if bad:
+                return i, bad
+        return None, None
+    finally:
+        h.close()
+
+
+def _part_r(task, rec):
+    names, rel = (task['a'], task['b']), task['rel']
+    ops = list(R_OPS) + (R_OPS_DEL if task.get('dels') else [])
+    rec.sample(dict(part='R', a=names[0], b=names[1], rel=rel, ops=ops, depth=task['depth']))
+    h = PairHistory(names, r_models())
+    dead = set()
+
+    def dfs(hist, target):
+        for op in ops:
+            pre = hist + (op,)
+            if (not hist and task.get('first') and op != task['first']) or pre in dead:
+                continue
+            mark = h.mark()
+            bad = h.step(op)
+            if len(pre) < target:
+                if bad:   # cannot happen: the prefix passed when it was the target
+                    raise RuntimeError(f're-execution of {pre} for {names} diverged: {bad}')
+                dfs(pre, target)
+            elif bad == 'skip':
+                rec.count('delete_without_an_own_pickle_skipped')
+                dead.add(pre)
+            else:
+                labels = []
+                if not bad:
+                    labels, bad = h.observe(rec)
+                rec.case(('R', names[0], names[1], pre) if len(pre) > 1 else None,
+                         ('R', names, pre, labels, bad[0] if bad else None),
+                         outcome=('R', op.split(':')[1], tuple(labels), bad[0] if bad else 'ok'))
+                rec.count('pair_history_steps')
+                if bad:
+                    _r_violation(rec, names, rel, pre, bad)
+                    dead.add(pre)    # its extensions are not histories of a correct run
+            h.undo(mark)
+
+    try:
+        for target in range(1, task['depth'] + 1):     # shortest histories first
+            dfs((), target)
+    finally:
+        h.close()
+
+
+def r_tasks(tier):
+    t = []
+    for a, b, rel in r_pairs():
+        if tier == 'quick':
+            if rel in R_THOROUGH_ONLY:
+                continue
+            t.append(dict(part='R', a=a, b=b, rel=rel, depth=3))
+        else:
+            for first in R_OPS:
+                t.append(dict(part='R', a=a, b=b, rel=rel, depth=4, first=first))
+            t.append(dict(part='R', a=a, b=b, rel=rel, depth=3, dels=True))
+    return t
+
+
+# --------------------------------------------------------------------------- part (fn): names of the parameter file
+# The round trip of part (ii) under an alphabet of FILE NAMES.  Reference rule of an admissible name (the one the
+# library documents for read_file: the base name is not empty, holds none of < > : " / \ | ? * and is at most 255
+# characters long): a parameter set dumped under an admissible name reads back under that name.  A name that the rule
+# excludes is outside the statement (counted): read_file documents that it ignores such a file.
+FN_INVALID = '<>:"/\\|?*'
+FN_NAMES = ['p.toml', 'my params.toml', 'a.b.c.toml', 'noextension', 'é β.toml', 'm[1].toml', 'm~00.toml', '.hidden.toml',
+            'sub dir/p.toml', 'UPPER.TOML', ' lead.toml', 'trail .toml', "it's.toml", 'a#b.toml', 'a=b.toml', 'x' * 200 + '.toml',
+            'a:b.toml', 'a?b.toml', 'a*b.toml', 'a|b.toml', 'a<b>.toml', 'a"b.toml', 'a\\b.toml']
+
+
+def fn_admissible(fname) -> bool:
+    base = os.path.basename(fname)
+    return bool(base) and not any(ch in FN_INVALID for ch in base) and len(base) <= 255
+
+
+def fn_class(fname):
+    base = os.path.basename(fname)
+    cls = [lab for lab, ok in (('blank', ' ' in base), ('non-ascii', any(ord(ch) > 127 for ch in base)),
+                               ('bracket', '[' in base), ('tilde', '~' in base), ('sub-directory', '/' in fname),
+                               ('no-extension', '.' not in base), ('hidden', base.startswith('.')),
+                               ('long', len(base) > 100)) if ok]
+    return '+'.join(cls) or 'plain'
+
+
+def check_file_name(fname, devs, rec):
+    import tomllib
+    from biogeme.parameters import Parameters
+    case = dict(part='fn', fname=fname, devs=[list(x) for x in devs])
+    ck = ('fn', fname, tuple((n, s, _vkey(v)) for n, s, v in devs))
+    if not fn_admissible(fname):
+        rec.count('parameter_file_name_not_admissible_out_of_domain')
+        rec.case(None, ('fn', fname, 'out of domain'), outcome=('fn', 'name-not-admissible'))
+        return
+    p = _params_with(devs)
+    want = {(k.name, k.section): t.value for k, t in p.all_parameters_dict.items()}
+    types = {(k.name, k.section): t.type.__name__ for k, t in p.all_parameters_dict.items()}
+    d = fresh_dir('fn')
+
+    def fail(clause, detail, observed):
+        rec.case(ck, ('fn', fname, clause), outcome=('fn', clause))
+        rec.violation(f'C14|toml-file-name:{clause}|name-class={fn_class(fname)}',
+                      f'parameter file named {fname!r} (deviations from the defaults {case["devs"]}): {detail}', case,
+                      observed=observed)
+
+    try:
+        if os.path.dirname(fname):
+            os.makedirs(os.path.dirname(fname))
+        before = snapshot()
+        try:
+            p.dump_file(fname)
+        except Exception as e:
+            return fail(f'dump-raises-{type(e).__name__}', f'dump_file raised {type(e).__name__}: {str(e)[:100]}', repr(e)[:200])
+        if not os.path.isfile(fname):
+            return fail('dump-wrote-no-such-file', f'no file of that name after dump_file; directory {sorted(snapshot())}', None)
+        try:
+            doc = tomllib.loads(open(fname, encoding='utf-8').read())
+        except Exception as e:
+            return fail('dump-not-valid-toml', f'the dumped file is not valid TOML: {e}', str(e)[:200])
+        text = open(fname, 'rb').read()
+        q = Parameters()
+        try:
+            q.read_file(fname)
+        except Exception as e:
+            return fail(f'read-raises-{type(e).__name__}', f'read_file raised {type(e).__name__}: {str(e)[:100]}', repr(e)[:200])
+        if open(fname, 'rb').read() != text:
+            return fail('read-rewrote-the-file', 'read_file modified the file', None)
+        for (name, section), w in want.items():
+            got = q.get_value(name, section)
+            if not same_value(types[(name, section)], w, got):
+                return fail('value-differs', f'{section}.{name} = {w!r} came back as {got!r}', repr(got))
+        extra = sorted(set(snapshot()) - set(before) - {fname.split('/')[0]})
+        if extra:
+            return fail('other-files-created', f'dump_file / read_file also created {extra}', extra)
+        rec.case(ck, ('fn', fname, 'ok'), outcome=('fn', 'ok', fn_class(fname)))
+    finally:
+        leave_dir(d)
+
+
+def _part_fn(task, rec):
+    devs_all = deviations(_SEED)
+    # one deviation per value type (the first of each), together and alone
+    per_type = {}
+    for n, s, v in devs_all:
+        if n != 'version':
+            per_type.setdefault(type(v).__name__, (n, s, v))
+    sets = [[]] + [[d] for d in per_type.values()] + [list(per_type.values())]
+    rec.sample(dict(part='fn', names=task['names'], deviation_sets=[[list(x) for x in s] for s in sets]))
+    for fname in task['names']:
+        for devs in sets:
+            check_file_name(fname, devs, rec)
+
+
 # --------------------------------------------------------------------------- tasks
 def _result_specs(tier):
     specs = []
@@ -3008,7 +3482,8 @@ def _result_specs(tier):
 def tasks(tier, seed):
     t = []
     # (n) naming helpers
-    for name, ext in ((MODEL_NAME, 'html'), (f'{DBNAME}_dumped', 'dat'), (MODEL_NAME, 'pickle')):
+    for name, ext in ((MODEL_NAME, 'html'), (f'{DBNAME}_dumped', 'dat'), (MODEL_NAME, 'pickle'),
+                      (f'{MODEL_NAME}[1]*?', 'pickle')):
         t.append(dict(part='n', name=name, ext=ext, kinds=['absent', 'file', 'dir', 'link']))
     # (ii) parameter file
     devs = deviations(seed)
@@ -3056,6 +3531,11 @@ def tasks(tier, seed):
         t.append(dict(part='vt', lo=lo, hi=lo + 6))
     # (L) long histories of one name in one directory
     t.extend(l_tasks(tier))
+    # (R) two models of related names (pattern characters, prefixes, '~') writing into one directory
+    t.extend(r_tasks(tier))
+    # (fn) names of the parameter file
+    for i in range(0, len(FN_NAMES), 6):
+        t.append(dict(part='fn', names=FN_NAMES[i:i + 6]))
     # (p) histories on one Parameters object
     ops = p_ops()
     for pre in itertools.product(ops, repeat=1 if tier == 'quick' else 2):
@@ -3094,6 +3574,10 @@ def run_task(task):
         _part_fig(task, rec)
     elif part == 'vt':
         _part_vt(task, rec)
+    elif part == 'R':
+        _part_r(task, rec)
+    elif part == 'fn':
+        _part_fn(task, rec)
     else:
         raise ValueError(part)
     return rec.result()
@@ -3135,6 +3619,12 @@ def replay(case):
             if label == case['label'] and repr(v) == case['value']:
                 check_value_type(case['name'], case['section'], case['tname'], label, v, rec)
                 break
+    elif part == 'R':
+        i, bad = run_pair_history((case['a'], case['b']), case.get('rel'), case['history'])
+        if bad and bad != 'skip':
+            _r_violation(rec, (case['a'], case['b']), case.get('rel'), case['history'][: i + 1], bad)
+    elif part == 'fn':
+        check_file_name(case['fname'], [tuple(x) for x in case['devs']], rec)
     elif part == 'iv':
         h, i, bad = run_history(case['root'], case['history'])
         try:
